@@ -65,7 +65,7 @@ def run_visits_every_node_once_in_order(nCycles: int, s0: int, s1: int, s2: int,
     steps = [s0, s1, s2][:nCycles]
     c0 = choose(c0, 0, 2)
     assume(c0 < nCycles)
-    assume(length > 0)
+    # any cycle length (0 and negative included: the loops only pass it on to the reactor state)
     n0 = choose(n0, 0, 2)
     assume(n0 <= steps[c0])
     haltCycle = choose(haltCycle, -1, 3)
